@@ -144,6 +144,8 @@ class _Normalizer:
             self._each_function(m, self._short_circuit_forms)
             self._each_function(m, self._record_rows)
             self._each_function(m, self._record_locals)
+            self._each_function(m, self._scalar_replace)
+            self._each_function(m, self._spread_keywords)
             self._each_function(m, self._closure_factories)
             self._each_function(m, self._memo_elision)
             self._each_function(m, self._guard_identity)
@@ -623,6 +625,205 @@ class _Normalizer:
                 break
 
     # ------------------------------------------------------------------ 9b. algebra of displays
+    def _scalar_replace(self, fnode, cls, local):
+        """A local that holds an object of a class introduced after the inventory (a small record with counters, say), is bound
+        once to its constructor call and is used only through its fields, properties and methods -- never passed on, returned,
+        stored or compared -- is taken apart: one local per field (``p__completed``), the constructor as the assignments it
+        makes, method calls as their bodies, properties as their expressions.  What is left is the code the pinned tree writes with
+        plain locals."""
+        me = self
+        from .srcmodel import ClassRef, NotConst
+        done = True
+        rounds = 0
+        while done and rounds < 4:
+            done = False
+            rounds += 1
+            stores: Dict[str, List[ast.stmt]] = {}
+            for n in ast.walk(fnode):
+                if isinstance(n, ast.Assign) and len(n.targets) == 1 and isinstance(n.targets[0], ast.Name):
+                    stores.setdefault(n.targets[0].id, []).append(n)
+            params = {a.arg for a in fnode.args.args + fnode.args.kwonlyargs + fnode.args.posonlyargs}
+            for x, sts in sorted(stores.items()):
+                if x in params or len(sts) != 1 or not isinstance(sts[0].value, ast.Call):
+                    continue
+                if sum(1 for y in ast.walk(fnode) if isinstance(y, ast.Name) and y.id == x and isinstance(y.ctx, (ast.Store, ast.Del))) != 1:
+                    continue
+                ctor = sts[0].value
+                try:
+                    r = me.repo.resolve_expr(ctor.func, me.m, cls)
+                except (NotConst, Exception):
+                    continue
+                if not isinstance(r, ClassRef) or r.module not in me.repo.modules:
+                    continue
+                K = me.repo.modules[r.module].classes.get(r.name)
+                if K is None or not me.repo.is_helper_class(K) or K.ext_bases not in ([], ['object']) or K.bases:
+                    continue
+                init = K.methods.get('__init__')
+                if init is None:
+                    continue
+                # escape analysis
+                ok = True
+                parents = {}
+                for p_ in ast.walk(fnode):
+                    for ch in ast.iter_child_nodes(p_):
+                        parents[id(ch)] = p_
+                for y in ast.walk(fnode):
+                    if isinstance(y, ast.Name) and y.id == x and isinstance(y.ctx, ast.Load):
+                        par = parents.get(id(y))
+                        if not (isinstance(par, ast.Attribute) and par.value is y):
+                            ok = False
+                            break
+                        m_ = K.find_method(par.attr)
+                        gp = parents.get(id(par))
+                        if m_ is not None and m_.kind == 'method' and not (isinstance(gp, ast.Call) and gp.func is par):
+                            ok = False
+                            break
+                    if isinstance(y, (ast.Lambda, ast.FunctionDef)) and y is not fnode and any(
+                            isinstance(z, ast.Name) and z.id == x for z in ast.walk(y)):
+                        ok = False
+                        break
+                if not ok:
+                    continue
+                # constructor: only ``self.f = <expr of parameters / constants>``
+                fields: List[str] = []
+                init_body = _body(init.node)
+                if not all(isinstance(b, ast.Assign) and len(b.targets) == 1 and isinstance(b.targets[0], ast.Attribute)
+                           and isinstance(b.targets[0].value, ast.Name) and b.targets[0].value.id == init.params[0] for b in init_body):
+                    continue
+                exp = me._expand(init, ast.Name(id=x, ctx=ast.Load()), ctor)
+                if exp is None:
+                    continue
+                for b in init_body:
+                    fields.append(b.targets[0].attr)
+                new_stmts = list(exp[0])
+                # methods and properties used
+                usable = True
+                for y in ast.walk(fnode):
+                    if isinstance(y, ast.Attribute) and isinstance(y.value, ast.Name) and y.value.id == x:
+                        if y.attr in fields:
+                            continue
+                        m_ = K.find_method(y.attr)
+                        if m_ is None or m_.kind not in ('method', 'property') or not me._inlinable(m_) or m_.node.decorator_list and m_.kind != 'property':
+                            if m_ is not None and m_.kind == 'property':
+                                pb = _body(m_.node)
+                                if len(pb) == 1 and isinstance(pb[0], ast.Return) and pb[0].value is not None:
+                                    continue
+                            usable = False
+                            break
+                if not usable:
+                    continue
+                # 1. properties
+                class P(ast.NodeTransformer):
+                    def visit_Attribute(self_, n):
+                        n = self_.generic_visit(n)
+                        if isinstance(n.value, ast.Name) and n.value.id == x and isinstance(n.ctx, ast.Load) and n.attr not in fields:
+                            m_ = K.find_method(n.attr)
+                            if m_ is not None and m_.kind == 'property':
+                                e_ = copy.deepcopy(_body(m_.node)[0].value)
+                                slf = m_.params[0]
+
+                                class S(ast.NodeTransformer):
+                                    def visit_Name(self__, q):
+                                        return ast.copy_location(ast.Name(id=x, ctx=q.ctx), q) if q.id == slf else q
+                                return ast.copy_location(self_.visit(S().visit(e_)), n)
+                        return n
+                for _k in range(3):
+                    P().visit(fnode)
+                # 2. method calls, statement by statement
+                def expand_in_block(blk):
+                    i = 0
+                    while i < len(blk):
+                        st = blk[i]
+                        if isinstance(st, (ast.FunctionDef, ast.ClassDef)):
+                            i += 1
+                            continue
+                        # calls directly in this statement (not inside its nested blocks)
+                        heads = [st.value] if isinstance(st, (ast.Expr, ast.Assign, ast.AugAssign, ast.Return)) and getattr(st, 'value', None) is not None \
+                            else [st.test] if isinstance(st, (ast.If, ast.While)) else [st.iter] if isinstance(st, ast.For) else []
+                        call = None
+                        for h in heads:
+                            for y in ast.walk(h):
+                                if isinstance(y, ast.Call) and isinstance(y.func, ast.Attribute) and isinstance(y.func.value, ast.Name) \
+                                        and y.func.value.id == x and K.find_method(y.func.attr) is not None:
+                                    call = y
+                                    break
+                            if call is not None:
+                                break
+                        if call is not None and not isinstance(st, ast.While):
+                            m_ = K.find_method(call.func.attr)
+                            e_ = me._expand(m_, ast.Name(id=x, ctx=ast.Load()), call)
+                            if e_ is None:
+                                return False
+                            pre, retv = e_
+
+                            class RC(ast.NodeTransformer):
+                                def visit_Call(self_, q):
+                                    if q is call:
+                                        return retv
+                                    return self_.generic_visit(q)
+                            if isinstance(st, ast.Expr) and st.value is call:
+                                blk[i:i + 1] = pre
+                            else:
+                                RC().visit(st)
+                                blk[i:i] = pre
+                            continue        # look at the same position again
+                        for fld in ('body', 'orelse', 'finalbody'):
+                            sub = getattr(st, fld, None)
+                            if isinstance(sub, list) and sub and isinstance(sub[0], ast.stmt):
+                                if expand_in_block(sub) is False:
+                                    return False
+                        if isinstance(st, ast.Try):
+                            for h_ in st.handlers:
+                                if expand_in_block(h_.body) is False:
+                                    return False
+                        i += 1
+                    return True
+                snapshot = copy.deepcopy(fnode.body)
+                if expand_in_block(fnode.body) is False or any(
+                        isinstance(y, ast.Call) and isinstance(y.func, ast.Attribute) and isinstance(y.func.value, ast.Name) and y.func.value.id == x
+                        for y in ast.walk(fnode)):
+                    fnode.body = snapshot
+                    continue
+                # 3. the constructor call becomes its assignments, fields become locals
+                for blk in _blocks(fnode):
+                    for j, st in enumerate(blk):
+                        if isinstance(st, ast.Assign) and len(st.targets) == 1 and isinstance(st.targets[0], ast.Name) and st.targets[0].id == x \
+                                and isinstance(st.value, ast.Call) and ast.unparse(st.value.func) == ast.unparse(ctor.func):
+                            blk[j:j + 1] = new_stmts
+                            break
+
+                class Fd(ast.NodeTransformer):
+                    def visit_Attribute(self_, n):
+                        n = self_.generic_visit(n)
+                        if isinstance(n.value, ast.Name) and n.value.id == x:
+                            return ast.copy_location(ast.Name(id='%s__%s' % (x, n.attr), ctx=n.ctx), n)
+                        return n
+                Fd().visit(fnode)
+                ast.fix_missing_locations(fnode)
+                me.stats['scalar_replaced'] = me.stats.get('scalar_replaced', 0) + 1
+                done = True
+                break
+
+    def _spread_keywords(self, fnode, cls, local):
+        """``f(a, **{'k': v, 'm': w})`` -> ``f(a, k=v, m=w)`` (a dict display with constant string keys spread into a call)"""
+        for n in ast.walk(fnode):
+            if isinstance(n, ast.Call) and any(k.arg is None and isinstance(k.value, ast.Dict) for k in n.keywords):
+                new = []
+                ok = True
+                for k in n.keywords:
+                    if k.arg is None and isinstance(k.value, ast.Dict):
+                        if not all(isinstance(x, ast.Constant) and isinstance(x.value, str) and x.value.isidentifier() for x in k.value.keys):
+                            ok = False
+                            break
+                        new.extend(ast.keyword(arg=x.value, value=v) for x, v in zip(k.value.keys, k.value.values))
+                    else:
+                        new.append(k)
+                names = [k.arg for k in new if k.arg is not None]
+                if ok and len(names) == len(set(names)):
+                    n.keywords = new
+                    self.stats['spread_keywords'] = self.stats.get('spread_keywords', 0) + 1
+        ast.fix_missing_locations(fnode)
+
     def _closure_factories(self, fnode, cls, local):
         """``enc, dec = _codec(ctx)`` where the new helper ``_codec`` binds a few locals to simple expressions of its parameters,
         defines one-expression functions over them and returns those functions: every ``enc(x)`` / ``dec(x)`` in this function reads as
